@@ -13,6 +13,8 @@ ALL = replay.ALL_ACTS
 NO_INDEX = [a for a in ALL if a != "Index"]
 
 PUSHED = ["Index", "Take", "Rechunk"]
+DERIVE = ["Index", "Elemwise", "Rechunk", "Transpose"]
+MUTATE = ["SetItem", "MaskSet", "OutUfunc"]
 INPLACE_ACTS = ["Index", "Elemwise", "Rechunk", "Transpose", "SetItem", "MaskSet", "OutUfunc"]
 CHAIN = ["Index", "Rechunk", "Transpose", "Elemwise", "Reduce"]
 
@@ -74,12 +76,15 @@ CORPORA = {
     "d3-unknown-ccs-follow2": dict(acts=["MaskSelect", "Unknown"], acts2=["ComputeChunkSizes", "Index", "Elemwise", "Reduce", "Transpose"],
                                    maxlen=3, preset="lean2", sim=False, lean=True, workers=8),
     # entry points that return collections, with follow-on operations (C05)
-    "d3-persist-follow1": dict(acts=ALL, acts2=["Persist"] + ALL, maxlen=3, preset="lean1", sim=False, lean=True, workers=8, excl=EXCL_DEEP,
-                               keep=lambda b: len(b["prog"]) == 4 and b["prog"][2]["a"] == "Persist"),
+    "d3-persist-follow1": dict(acts=ALL, acts2=["Persist"], acts3=ALL, maxlen=3, preset="lean1", sim=False, lean=True, workers=8,
+                               excl=EXCL_DEEP),
     "d2-persist-follow2": dict(acts=["Persist"], acts2=ALL, maxlen=2, preset="lean2", sim=False, lean=True, workers=8, excl=EXCL_DEEP),
     "d2-persist-follow3": dict(acts=["Persist"], acts2=ALL, maxlen=2, preset="lean3", sim=False, lean=True, workers=8, excl=EXCL_DEEP),
     # in-place histories: derive, mutate in place, derive (C11, C04)
-    "d3-inplace1": dict(acts=INPLACE_ACTS, maxlen=3, preset="lean1", sim=False, lean=True, workers=8),
+    "d3-inplace-dmd": dict(acts=DERIVE, acts2=MUTATE, acts3=DERIVE, maxlen=3, preset="lean1", sim=False, lean=True, workers=4),
+    "d3-inplace-mdm": dict(acts=MUTATE, acts2=DERIVE, acts3=MUTATE, maxlen=3, preset="lean1", sim=False, lean=True, workers=4),
+    "d3-inplace-ddm": dict(acts=DERIVE, acts2=DERIVE, acts3=MUTATE, maxlen=3, preset="lean1", sim=False, lean=True, workers=4),
+    "d3-inplace-mmd": dict(acts=MUTATE, acts2=MUTATE, acts3=DERIVE, maxlen=3, preset="lean1", sim=False, lean=True, workers=4),
     "d2-inplace1-all": dict(acts=INPLACE_ACTS, maxlen=2, preset="lean1", sim=False, lean=True, workers=4, observe_all=True),
     "d2-inplace2-all": dict(acts=INPLACE_ACTS, maxlen=2, preset="lean2", sim=False, lean=True, workers=8, observe_all=True),
     "d2-inplace2": dict(acts=INPLACE_ACTS, maxlen=2, preset="lean2", sim=False, lean=True, workers=8),
